@@ -322,7 +322,10 @@ impl ParsedParameters {
 
                 OpParameter::Text { key, default } => {
                     if let Some(value) = chase(globals, &locals, key)? {
-                        // should chase!
+                        // Ellipsoids must be known: ellps(...) is infallible at run time
+                        if key.starts_with("ellps") {
+                            Ellipsoid::named(&value)?;
+                        }
                         text.insert(key, value.to_string());
                         continue;
                     }
